@@ -373,6 +373,14 @@ class _Synonyms(ast.NodeTransformer):
                 else:
                     args.append(a)
             n.args = args
+        # operator.add(a, b) / np.add(a, b) -> a + b   (likewise sub, mul, truediv, matmul, and_, or_, xor; two positional arguments only)
+        _BIN = {"operator.add": ast.Add, "operator.sub": ast.Sub, "operator.mul": ast.Mult, "operator.truediv": ast.Div, "operator.matmul": ast.MatMult,
+                "operator.and_": ast.BitAnd, "operator.or_": ast.BitOr, "operator.xor": ast.BitXor, "operator.floordiv": ast.FloorDiv, "operator.mod": ast.Mod,
+                "np.add": ast.Add, "np.subtract": ast.Sub, "np.multiply": ast.Mult, "np.true_divide": ast.Div, "np.divide": ast.Div, "np.matmul": ast.MatMult}
+        if f in _BIN and len(n.args) == 2 and not n.keywords and not any(isinstance(a, ast.Starred) for a in n.args):
+            return ast.copy_location(ast.BinOp(left=n.args[0], op=_BIN[f](), right=n.args[1]), n)
+        if f in ("operator.neg", "np.negative") and len(n.args) == 1 and not n.keywords:
+            return ast.copy_location(ast.UnaryOp(op=ast.USub(), operand=n.args[0]), n)
         # np.arange(N, 0, -1)  ->  N - np.arange(N)     (N, N-1, .., 1 either way; fresh integer arrays)
         if f in ("np.arange", "numpy.arange") and len(n.args) == 3 and not n.keywords and isinstance(n.args[1], ast.Constant) and n.args[1].value == 0 \
                 and isinstance(n.args[2], ast.UnaryOp) and isinstance(n.args[2].op, ast.USub) and isinstance(n.args[2].operand, ast.Constant) and n.args[2].operand.value == 1 \
